@@ -2,6 +2,10 @@ import Okane.Lemmas.C13Perm
 import Okane.Lemmas.C13CmdFine
 import Okane.Lemmas.CmdTextEq
 import Okane.Lemmas.C13FormatImport
+import Okane.Lemmas.C13Front
+import Okane.Lemmas.C13FrontViseca
+import Okane.Lemmas.C13FrontFormatCsv
+import Okane.Lemmas.C13FrontCsvFields
 /-!
 # C13 — same input, same output: runs are deterministic
 
@@ -37,8 +41,9 @@ maps even when `check_balance` named the sides of an implied exchange in opposit
 `C13_eval_query`) provided the neighbour order of `compute_price_table` does not depend on the layout of the inner map
 (`OrdOK`: true of the sorted order, false of the raw hash order: `ordSorted_ok`, `ordId_not_ok`), hence
 `C13_balance_exchange_cmd`, `C13_eval_cmd`.  The `…_fine` versions quantify over re-layouts after every posting as
-well (`processScr2`, `C13_process_relayout2`).  Not covered: `format`, `import`, and the loader / parser / price-db
-reader in front of `process` (their statements stay `Prop`s).
+well (`processScr2`, `C13_process_relayout2`).  `format`, `import` (CSV from its cells, Viseca from the
+statement text) and the loader / parser / price-db reader in front of `process` are covered by the sections appended at the end
+(`C13_*_file`, `C13_format_file`, `C13_import_viseca`, `C13_import_csv_cells`); camt053 from XML text is not.
 -/
 set_option linter.unusedSectionVars false
 set_option linter.unusedSimpArgs false
@@ -1018,3 +1023,279 @@ example (header : List String) (records : List (List String)) :
   csvImport_field_order _ _ (rulesPerm_reorder (fun l => List.reverse_perm l) _) exCsvRules_keys header records
 
 end Okane.C13
+
+/-! ## The commands from FILE CONTENTS: loader and parser in front of `process` (proved in `Lemmas/C13Front.lean`)
+
+The entry list of the theorems above is what the loader model (`Model/Load.lean`) delivers when every file is parsed by the parser
+model (`Load.parseFS`).  Inputs: a file system of texts `T`, the loader's recursion fuel, the root path, the text of the price db,
+the flags.  Orders: the order in which every `glob` enumerates its matches (`GlobOrders`; the only order parameter of the loader
+— the parser has none — and `paths.sort_unstable()` removes it: `C13_load_file`) and the layout histories of all hash maps of
+book-keeping (`Layouts`).  `C13_<cmd>_file`: ∀ inputs, ∀ orders, orders' : the same result.  `C13_<cmd>_file_run`: that result is
+the one of the order-free composition `bookFileRun` (= `CmdText.run / runX / runEval` on the delivered entries after a successful
+load: `C13Front.bookFileRun_ok_…`; a book-keeping error, tagged with the file of the offending entry, else the loader's error,
+otherwise). -/
+namespace Okane.C13
+open Okane Okane.Load Okane.CmdText Okane.C13Front Okane.Price Okane.Query
+
+/-- the enumeration orders of `FileSystem::glob`: for every pattern, any permutation of its matches -/
+abbrev GlobOrders := { σ : String → List Path → List Path // GlobOrder σ }
+
+/-- **C13_load_file.**  Loader + parser: the callback sequence (entries tagged with their files) and the way the load ends are
+the same for every enumeration order of every glob — the matches are sorted before they are visited (`C11_order`), and
+`Ord for PathBuf` is a total order. -/
+theorem C13_load_file (T : TextFS) (fuel : Nat) (root : Path) (σ σ' : GlobOrders) :
+    loadText σ.1 T fuel root = loadText σ'.1 T fuel root := by
+  unfold loadText
+  rw [load_text_glob_order σ.2, load_text_glob_order σ'.2]
+
+/-- the sort forgets the enumeration order -/
+theorem C13_sort_paths {ps ps' : List Path} (h : ps.Perm ps') : sortPaths ps = sortPaths ps' := sortPaths_perm_eq h
+
+/-- **C13_balance_file.**  `okane balance [--start ..] [--end ..] ROOT` from file contents. -/
+theorem C13_balance_file (T : TextFS) (fuel : Nat) (root : Path) (r : DateRange) (σ σ' : GlobOrders) (l l' : Layouts) :
+    balanceFile r σ.1 l.1.1 l.1.2 T fuel root = balanceFile r σ'.1 l'.1.1 l'.1.2 T fuel root :=
+  balanceFile_det r σ.2 σ'.2 l.2.1 l'.2.1 l.2.2 l'.2.2 T fuel root
+
+theorem C13_balance_file_run (T : TextFS) (fuel : Nat) (root : Path) (r : DateRange) (σ : GlobOrders) (l : Layouts) :
+    balanceFile r σ.1 l.1.1 l.1.2 T fuel root = bookFileRun bookIndex (finish (CmdText.balanceLines r)) T fuel root :=
+  balanceFile_run r σ.2 l.2.1 l.2.2 T fuel root
+
+/-- **C13_register_file.**  `okane register [ACCOUNT] ROOT`. -/
+theorem C13_register_file (T : TextFS) (fuel : Nat) (root : Path) (acct : Option String) (σ σ' : GlobOrders) (l l' : Layouts) :
+    registerFile acct σ.1 l.1.1 l.1.2 T fuel root = registerFile acct σ'.1 l'.1.1 l'.1.2 T fuel root :=
+  registerFile_det acct σ.2 σ'.2 l.2.1 l'.2.1 l.2.2 l'.2.2 T fuel root
+
+theorem C13_register_file_run (T : TextFS) (fuel : Nat) (root : Path) (acct : Option String) (σ : GlobOrders) (l : Layouts) :
+    registerFile acct σ.1 l.1.1 l.1.2 T fuel root = bookFileRun bookIndex (finish (CmdText.registerLines acct)) T fuel root :=
+  registerFile_run acct σ.2 l.2.1 l.2.2 T fuel root
+
+/-- **C13_accounts_file.**  `okane accounts ROOT` (orders: the globs and the layout history of the intern store). -/
+theorem C13_accounts_file (T : TextFS) (fuel : Nat) (root : Path) (σ σ' : GlobOrders)
+    (τ τ' : { τ : Nat → Store → Store // StoreRelayout τ }) :
+    accountsFile σ.1 τ.1 T fuel root = accountsFile σ'.1 τ'.1 T fuel root :=
+  accountsFile_det σ.2 σ'.2 τ.2 τ'.2 T fuel root
+
+theorem C13_accounts_file_run (T : TextFS) (fuel : Nat) (root : Path) (σ : GlobOrders)
+    (τ : { τ : Nat → Store → Store // StoreRelayout τ }) :
+    accountsFile σ.1 τ.1 T fuel root = accountsFileRun T fuel root :=
+  accountsFile_run σ.2 τ.2 T fuel root
+
+/-- **C13_balance_exchange_file.**  `okane balance -X C --now D [--historical] [--start ..] [--end ..] [--price-db F] ROOT`;
+`dbText` = the content of `F`. -/
+theorem C13_balance_exchange_file {cfg : Cfg String} (hord : OrdOK cfg.ord) (T : TextFS) (fuel : Nat) (root : Path)
+    (dbText : Option (List Char)) (o : XOpts) (σ σ' : GlobOrders) (l l' : Layouts) :
+    balanceXFile cfg dbText o σ.1 l.1.1 l.1.2 T fuel root = balanceXFile cfg dbText o σ'.1 l'.1.1 l'.1.2 T fuel root :=
+  balanceXFile_det hord dbText o σ.2 σ'.2 l.2.1 l'.2.1 l.2.2 l'.2.2 T fuel root
+
+theorem C13_balance_exchange_file_run {cfg : Cfg String} (hord : OrdOK cfg.ord) (T : TextFS) (fuel : Nat) (root : Path)
+    (dbText : Option (List Char)) (o : XOpts) (σ : GlobOrders) (l : Layouts) :
+    balanceXFile cfg dbText o σ.1 l.1.1 l.1.2 T fuel root = bookFileRun failIndex (xFinish cfg dbText o) T fuel root :=
+  balanceXFile_run hord dbText o σ.2 l.2.1 l.2.2 T fuel root
+
+/-- **C13_eval_file.**  `okane primitive eval --date D [-X C] [--price-db F] -f ROOT EXPR`. -/
+theorem C13_eval_file {cfg : Cfg String} (hord : OrdOK cfg.ord) (T : TextFS) (fuel : Nat) (root : Path)
+    (dbText : Option (List Char)) (expr : Option VExpr) (date : Date) (exchange : Option String) (σ σ' : GlobOrders)
+    (l l' : Layouts) :
+    evalFile cfg dbText expr date exchange σ.1 l.1.1 l.1.2 T fuel root =
+      evalFile cfg dbText expr date exchange σ'.1 l'.1.1 l'.1.2 T fuel root :=
+  evalFile_det hord dbText expr date exchange σ.2 σ'.2 l.2.1 l'.2.1 l.2.2 l'.2.2 T fuel root
+
+theorem C13_eval_file_run {cfg : Cfg String} (hord : OrdOK cfg.ord) (T : TextFS) (fuel : Nat) (root : Path)
+    (dbText : Option (List Char)) (expr : Option VExpr) (date : Date) (exchange : Option String) (σ : GlobOrders) (l : Layouts) :
+    evalFile cfg dbText expr date exchange σ.1 l.1.1 l.1.2 T fuel root =
+      bookFileRun failIndex (evalFinish cfg dbText expr date exchange) T fuel root :=
+  evalFile_run hord dbText expr date exchange σ.2 l.2.1 l.2.2 T fuel root
+
+/-- **C13_file_fuel.**  The recursion fuel of the loader model is not an input of the commands either: once the load does not
+run out of it (`C11_terminates_load`: above the number of readable files it never does), every larger fuel gives the same
+callbacks and status, hence the same result of every command. -/
+theorem C13_file_fuel (T : TextFS) {n m : Nat} (hnm : n ≤ m) (root : Path)
+    (h : (load (parseFS T) n root).status ≠ .fuelOut) : load (parseFS T) m root = load (parseFS T) n root :=
+  load_fuel _ hnm root h
+
+theorem C13_book_file_fuel {ε : Type} (idx : ε → Option Nat) (fin : Outcome (Nat × BkErrS) ProcState → Outcome ε String)
+    (T : TextFS) {n m : Nat} (hnm : n ≤ m) (root : Path) (h : (load (parseFS T) n root).status ≠ .fuelOut) :
+    bookFileRun idx fin T m root = bookFileRun idx fin T n root := bookFileRun_fuel idx fin T hnm root h
+
+/-- … as instances of the recorded statements: orders = (glob enumeration, layout histories), input = (texts, fuel, root). -/
+theorem C13_balance_file_schema (r : DateRange) :
+    C13_balance (Orders := GlobOrders × Layouts) (Input := TextFS × Nat × Path)
+      (fun o x => balanceFile r o.1.1 o.2.1.1 o.2.1.2 x.1 x.2.1 x.2.2) :=
+  fun o o' x => C13_balance_file x.1 x.2.1 x.2.2 r o.1 o'.1 o.2 o'.2
+
+/-! non-vacuity (`Lemmas/C13Front.lean`, section Examples): the ledger in three files `exT` (an `include sub/*.ledger` whose glob
+answers `[b, a]`, an alias declared in `a` and used in the root; loading `b` first would be rejected), the reversed enumeration
+`σrev`, the reversing layouts `lrev`. -/
+def gid : GlobOrders := ⟨fun _ ps => ps, globOrder_id⟩
+def grev : GlobOrders := ⟨σrev, globOrder_rev⟩
+
+example : balanceFile {} gid.1 lid.1.1 lid.1.2 exT 2 fMain = balanceFile {} grev.1 lrev.1.1 lrev.1.2 exT 2 fMain :=
+  C13_balance_file exT 2 fMain {} gid grev lid lrev
+
+example : registerFile (some "Assets:Cash") grev.1 lrev.1.1 lrev.1.2 exT 2 fMain =
+    bookFileRun bookIndex (finish (CmdText.registerLines (some "Assets:Cash"))) exT 2 fMain :=
+  C13_register_file_run exT 2 fMain _ grev lrev
+
+example : accountsFile gid.1 (fun _ s => s) exT 2 fMain = accountsFile grev.1 (fun _ s => ⟨s.recs.reverse⟩) exT 2 fMain :=
+  C13_accounts_file exT 2 fMain gid grev ⟨_, storeRelayout_id⟩ ⟨_, storeRelayout_rev⟩
+
+example : balanceXFile cfgSorted (some exDb) { exchange := "HUB", now := ⟨2024, 2, 1⟩ } gid.1 lid.1.1 lid.1.2 exT 2 fMain =
+    balanceXFile cfgSorted (some exDb) { exchange := "HUB", now := ⟨2024, 2, 1⟩ } grev.1 lrev.1.1 lrev.1.2 exT 2 fMain :=
+  C13_balance_exchange_file ordSorted_string_ok exT 2 fMain _ _ gid grev lid lrev
+
+example : evalFile cfgSorted (some exDb) (some (.amt ⟨false, 3, 0, none⟩ "EUR")) ⟨2024, 2, 1⟩ (some "HUB") gid.1 lid.1.1 lid.1.2
+      exTBook 2 fMain =
+    evalFile cfgSorted (some exDb) (some (.amt ⟨false, 3, 0, none⟩ "EUR")) ⟨2024, 2, 1⟩ (some "HUB") grev.1 lrev.1.1 lrev.1.2
+      exTBook 2 fMain :=
+  C13_eval_file ordSorted_string_ok exTBook 2 fMain _ _ _ _ gid grev lid lrev
+
+/-- the example really loads (five entries, `a` before `b`), book-keeping accepts it, and the two enumerations differ -/
+example : (loadText grev.1 exT 2 fMain).delivered.map (·.1) = [fMain, fA, fA, fB, fMain] ∧
+    (loadText grev.1 exT 2 fMain).status = .ok () ∧
+    (reorderGlobT grev.1 exT).glob "/r/sub/*.ledger" ≠ (reorderGlobT gid.1 exT).glob "/r/sub/*.ledger" ∧
+    (bookFileRun bookIndex (finish (CmdText.balanceLines {})) exT 2 fMain).isOk = true := by decide +kernel
+
+end Okane.C13
+
+/-! ## `okane import` of a Viseca statement as a whole command: statement TEXT → printed ledger (`Lemmas/C13FrontViseca.lean`)
+
+`visecaCmd env cfg w text`: compile the rewrite rules, cut the text into lines, the `parse_entry` loop, `extract` on every record,
+the conversion, `to_double_entry` and `writeln!` of every transaction with the precisions of `format.commodity` — standard output and
+the ending.  Orders: the iteration orders of the field maps of all AND-elements (read twice: when the rules are compiled and when a
+record is matched). -/
+namespace Okane.C13
+open Okane Okane.Import Okane.Import.Viseca Okane.C13FI Okane.C13FV
+
+/-- **C13_import_viseca.**  The Viseca importer as a whole command prints the same ledger and ends the same way for every order of
+the field maps, on statements every record of which leaves at most one interacting field per element (the hypothesis of
+`C13_import_partial` / `C17_and_order_partial`, on the records the parser model cuts out of the text), when the faulty fields of
+every element agree on their error (vacuous for rules that compile: `C13_import_viseca_compiles`). -/
+theorem C13_import_viseca (env : VisecaEnv) (cfg : ConfigEntry) (w : List Char → Nat)
+    (h2 : RulesFaultsAgree .viseca env.validPattern (fun _ _ => true) cfg.rewrite) :
+    C13_import (Orders := { π : List (Field × String) → List (Field × String) // IsRelayout π })
+      (Input := { text : List Char // StatementOneInteracting env cfg text })
+      (fun π text => visecaCmd env { cfg with rewrite := reorderRules π.1 cfg.rewrite } w text.1) :=
+  fun π₁ π₂ text => visecaCmd_deterministic env cfg w text.1 text.2 h2 π₁ π₂
+
+/-- the same for any two rule lists that are equal up to the order of every field map -/
+theorem C13_import_viseca_perm (env : VisecaEnv) (cfg : ConfigEntry) (w : List Char → Nat) (text : List Char)
+    {rules' : List Rule} (h : RulesPerm cfg.rewrite rules') (h1 : StatementOneInteracting env cfg text)
+    (h2 : RulesFaultsAgree .viseca env.validPattern (fun _ _ => true) cfg.rewrite) :
+    visecaCmd env { cfg with rewrite := rules' } w text = visecaCmd env cfg w text :=
+  visecaCmd_field_order env cfg w text h h1 h2
+
+/-- rules that compile satisfy the second hypothesis; and whether rules compile does not depend on the order at all -/
+theorem C13_import_viseca_compiles (env : VisecaEnv) (cfg : ConfigEntry)
+    (h : checkRules .viseca env.validPattern (fun _ _ => true) cfg.rewrite = .ok ()) :
+    RulesFaultsAgree .viseca env.validPattern (fun _ _ => true) cfg.rewrite := rulesFaultsAgree_of_ok _ _ _ h
+
+theorem C13_import_compile_order (kind : ImporterKind) (vp : String → Bool) (vc : Field → String → Bool)
+    {rules rules' : List Rule} (h : RulesPerm rules rules') :
+    checkRules kind vp vc rules = .ok () ↔ checkRules kind vp vc rules' = .ok () := checkRules_isOk_perm kind vp vc h
+
+/-- a static sufficient condition for the first hypothesis: no element pairs `payee` with `category` -/
+theorem C13_import_viseca_static (env : VisecaEnv) (cfg : ConfigEntry) (text : List Char)
+    (h : ∀ rule ∈ cfg.rewrite, ∀ m ∈ rule.matcher.elements, NotBothPC m) : StatementOneInteracting env cfg text :=
+  fun e _ => viseca_oneInteracting_static env.cap e h
+
+/-- `format.commodity` (copied into the display context, looked up) in any layout -/
+theorem C13_import_viseca_commodity (env : VisecaEnv) (cfg : ConfigEntry) (w : List Char → Nat) (text : List Char)
+    {m' : AMap String Nat} (h : cfg.format.commodity.Perm m') (hwf : AMap.WF cfg.format.commodity) :
+    visecaCmd env { cfg with format := { cfg.format with commodity := m' } } w text = visecaCmd env cfg w text :=
+  visecaCmd_commodity_order env cfg w text h hwf
+
+/-- **C13_import_viseca_false.**  The unconditional statement is false (F14): the statement `f14Text` with the rule
+`{category: (?P<payee>Service) stations, payee: ^Service$} → Expenses:Car` prints `Expenses:Car` under the payee `Service` in the
+order `category, payee` and `! Expenses:Unknown` under `Europe Gas AT` in the order `payee, category`. -/
+theorem C13_import_viseca_false : ¬ visecaCmd_full := visecaCmd_full_false
+
+theorem C13_import_viseca_witness :
+    (visecaCmd f14Env f14Cfg Unparse.widthStd f14Text).1 ≠
+      (visecaCmd f14Env { f14Cfg with rewrite := reorderRules List.reverse f14Cfg.rewrite } Unparse.widthStd f14Text).1 := by
+  rw [f14_prints_category_first, f14_prints_payee_first]
+  decide +kernel
+
+/-- nor is the error of a configuration with two different faults in one element (F32) -/
+theorem C13_import_viseca_error_false : ¬ visecaCmd_error_full := visecaCmd_error_false
+
+/-- non-vacuity: the two-record statement with a capturing payee rule and a `{category, payee}` element whose category never
+captures; the reversed layout is another rule list and prints the same ledger. -/
+example : visecaCmd exEnvV { exCfgV with rewrite := reorderRules List.reverse exCfgV.rewrite } Unparse.widthStd f14Text =
+    visecaCmd exEnvV { exCfgV with rewrite := reorderRules (fun l => l) exCfgV.rewrite } Unparse.widthStd f14Text :=
+  C13_import_viseca exEnvV exCfgV Unparse.widthStd (C13_import_viseca_compiles _ _ exCfgV_compiles)
+    ⟨List.reverse, isRelayout_rev⟩ ⟨fun l => l, isRelayout_id⟩ ⟨f14Text, exCfgV_one⟩
+
+example : reorderRules List.reverse exCfgV.rewrite ≠ reorderRules (fun l => l) exCfgV.rewrite := by decide
+
+end Okane.C13
+
+/-! ## `okane format` from the file, `okane import` of a CSV file from its cells (`Lemmas/C13FrontFormatCsv.lean`) -/
+namespace Okane.C13
+open Okane Okane.Load Okane.Import Okane.C13FI Okane.C13FV Okane.C13FC Okane.C13Front
+
+/-- **C13_format_file.**  `okane format FILE` from the file system of texts (`File::open`, `recursive(false)`): an instance of
+`C13_format` for every type of orders — no hash map is iterated between the file and the output. -/
+theorem C13_format_file {Orders : Type} (w : List Char → Nat) :
+    C13_format (Orders := Orders) (Input := TextFS × Path) (fun _ x => formatFile w x.1 x.2) :=
+  formatFile_deterministic w
+
+/-- … and it depends on the text of that one file only (not on what `glob` answers, nor on other files) -/
+theorem C13_format_file_local (w : List Char → Nat) (T T' : TextFS) (path : Path) (h : T.text path = T'.text path) :
+    formatFile w T path = formatFile w T' path := formatFile_local w T T' path h
+
+/-- **C13_import_csv_cells.**  `okane import` of a CSV file as a whole command from its cells (field map, extractor, records
+decoded by okane's own decoders, `to_double_entry`, printing with the configured precisions): the same standard output and ending
+for every iteration order of the rewrite rules' field maps, when their keys are distinct (every `HashMap`) and the faulty fields of
+every element agree on their error (vacuous for rules that compile). -/
+theorem C13_import_csv_cells (pd : String → Option Date) (cap : Captures) (vp : String → Bool) (cfg : CsvCfg)
+    (commodity : AMap String Nat) (w : List Char → Nat) (hk : KeysDistinct cfg.rewrite)
+    (h2 : RulesFaultsAgree .csv vp (fun _ _ => true) cfg.rewrite) :
+    C13_import (Orders := { π : List (Field × String) → List (Field × String) // IsRelayout π })
+      (Input := List String × List (List String))
+      (fun π x => csvCmd pd cap vp { cfg with rewrite := reorderRules π.1 cfg.rewrite } commodity w x.1 x.2) :=
+  fun π₁ π₂ x => csvCmd_deterministic pd cap vp cfg commodity w hk h2 π₁ π₂ x.1 x.2
+
+theorem C13_import_csv_commodity (pd : String → Option Date) (cap : Captures) (vp : String → Bool) (cfg : CsvCfg)
+    {commodity commodity' : AMap String Nat} (h : commodity.Perm commodity') (hwf : AMap.WF commodity)
+    (w : List Char → Nat) (header : List String) (records : List (List String)) :
+    csvCmd pd cap vp cfg commodity' w header records = csvCmd pd cap vp cfg commodity w header records :=
+  csvCmd_commodity_order pd cap vp cfg h hwf w header records
+
+example : csvCmd exDates exCapC (fun _ => true) { exCfgC with rewrite := reorderRules List.reverse exCfgC.rewrite }
+      [("CHF", 2)] Unparse.widthStd exHeader exRecords =
+    csvCmd exDates exCapC (fun _ => true) { exCfgC with rewrite := reorderRules (fun l => l) exCfgC.rewrite }
+      [("CHF", 2)] Unparse.widthStd exHeader exRecords :=
+  C13_import_csv_cells exDates exCapC (fun _ => true) exCfgC [("CHF", 2)] Unparse.widthStd exCfgC_keys
+    (rulesFaultsAgree_of_ok _ _ _ exCfgC_compiles) ⟨List.reverse, isRelayout_rev⟩ ⟨fun l => l, isRelayout_id⟩ (exHeader, exRecords)
+
+example (w : List Char → Nat) : formatFile w exT fMain = formatFile w (C13Front.reorderGlobT C13Front.σrev exT) fMain :=
+  C13_format_file_local w _ _ fMain rfl
+
+end Okane.C13
+
+/-! ## `okane import` of a CSV file: the order of `format.fields` (`Lemmas/C13FrontCsvFields.lean`) -/
+namespace Okane.C13
+open Okane Okane.Import Okane.C13FC
+
+/-- **C13_import_csv_fields.**  The third hash map of the CSV import, `format.fields` (iterated by `FieldMap::try_new`): for every
+order of it the whole command writes the same text and ends the same way (same `ImportError` variant; the model's errors carry no
+message text, so *which* of two unparsable templates the message names — the rest of F32 — is below this statement). -/
+theorem C13_import_csv_fields (pd : String → Option Date) (cap : Captures) (vp : String → Bool) (cfg : CsvCfg)
+    (commodity : AMap String Nat) (w : List Char → Nat) {fields' : AMap FieldKey CsvPos} (h : cfg.fields.Perm fields')
+    (hwf : AMap.WF cfg.fields) (header : List String) (records : List (List String)) :
+    csvCmd pd cap vp { cfg with fields := fields' } commodity w header records =
+      csvCmd pd cap vp cfg commodity w header records :=
+  csvCmd_fields_order pd cap vp cfg commodity w h hwf header records
+
+/-- `FieldMap::try_new` itself: the same error, or field maps equal in every component and every lookup -/
+theorem C13_fieldMap_order {fields fields' : AMap FieldKey CsvPos} (h : fields.Perm fields') (hwf : AMap.WF fields)
+    (header : List String) : TrySame (FieldMap.tryNew fields header) (FieldMap.tryNew fields' header) :=
+  tryNew_perm h hwf header
+
+example : csvCmd exDates exCapC (fun _ => true) { exCfgC with fields := exCfgC.fields.reverse } [("CHF", 2)] Unparse.widthStd
+      exHeader exRecords =
+    csvCmd exDates exCapC (fun _ => true) exCfgC [("CHF", 2)] Unparse.widthStd exHeader exRecords :=
+  C13_import_csv_fields _ _ _ exCfgC _ _ (List.reverse_perm _).symm (by unfold AMap.WF AMap.keys; decide) exHeader exRecords
+
+end Okane.C13
+
